@@ -10,6 +10,15 @@
 //! `Arp::verif_set_trace` hook, frames at send time with their fate, tap deliveries, returns) is
 //! printed as op lines; the Lean driver replays them through the transition system of
 //! `Model/Arp.lean`.  The native oracle evaluates the property from the configuration.
+//!
+//! A resolution is started either by calling `Arp::resolve` directly (`via=arp`) or THROUGH the
+//! IPv4 layer, the way applications trigger it: `Ipv4::open_for_sending` (`via=ip`) or
+//! `Udp::open_and_listen` (`via=udp`) on a machine whose route for the local address has no MAC.
+//! The open call is treated as the resolution: it must return when, and with the outcome that,
+//! the model says `resolve` returns; the MAC it resolved is read off the wire (destination of a
+//! tagged datagram sent through the opened session at once).  The `kth` family drives every
+//! position of the retry budget: only the k-th request/reply exchange gets through
+//! (k = 1..=RESEND_TRIES) or none does, the earlier rounds losing the request or the reply.
 use crate::scaffold::*;
 use elvis_core::{
     network::VerifFramePlan,
@@ -18,14 +27,16 @@ use elvis_core::{
             subnetting::{Ipv4Mask, SubnetInfo},
             verif::ResolveRound,
         },
-        ipv4::Ipv4Address,
-        AddressPair, Arp,
+        ipv4::{Ipv4, Ipv4Address},
+        AddressPair, Arp, Endpoint, Endpoints, Udp,
     },
-    run_internet_with_timeout,
+    run_internet_with_timeout, Message, Session,
 };
 use hcommon::*;
+use std::any::TypeId;
 use std::collections::BTreeMap;
 use std::future::Future;
+use std::pin::Pin;
 use std::sync::{Arc, Mutex};
 use std::task::Poll;
 use std::time::Duration;
@@ -79,6 +90,34 @@ struct Claim {
     sub: Option<(u32, u32)>,
 }
 
+/// how a resolution is triggered
+#[derive(Clone, Copy, Debug, PartialEq, Eq)]
+enum Via {
+    /// `Arp::resolve` called directly
+    Arp,
+    /// `Ipv4::open_for_sending` (route of the local address: slot, no MAC)
+    Ip,
+    /// `Udp::open_and_listen` (-> `Ipv4::open_and_listen` -> `open_for_sending`)
+    Udp,
+}
+impl Via {
+    fn name(self) -> &'static str {
+        match self {
+            Via::Arp => "arp",
+            Via::Ip => "ip",
+            Via::Udp => "udp",
+        }
+    }
+    fn parse(s: &str) -> Option<Via> {
+        Some(match s {
+            "arp" => Via::Arp,
+            "ip" => Via::Ip,
+            "udp" => Via::Udp,
+            _ => return None,
+        })
+    }
+}
+
 #[derive(Clone, Debug)]
 struct Res {
     rid: usize,
@@ -87,6 +126,16 @@ struct Res {
     remote: u32,
     slot: u32,
     at: u64,
+    via: Via,
+}
+
+/// what the configuration of a `kth` case prescribes for a resolution: `owner = Some(machine)` =
+/// Ok with a MAC of that machine, `None` = Err; `t` = completion time (virtual us)
+#[derive(Clone, Debug, PartialEq)]
+struct Expect {
+    rid: usize,
+    owner: Option<usize>,
+    t: u64,
 }
 
 #[derive(Clone, Debug)]
@@ -99,6 +148,8 @@ struct Case {
     resolves: Vec<Res>,
     /// fate of the k-th ARP frame handed to the network (frames beyond the list are delivered)
     plan: Vec<Plan>,
+    /// outcomes prescribed by the configuration (the `kth` family), else empty
+    expect: Vec<Expect>,
 }
 
 impl Case {
@@ -120,7 +171,13 @@ impl Case {
             ));
         }
         for r in &self.resolves {
-            l.push(format!("cfg resolve {} {} {} {} {} {}", r.rid, r.m, fmt_addr(r.local), fmt_addr(r.remote), r.slot, r.at));
+            l.push(format!("cfg resolve {} {} {} {} {} {} {}", r.rid, r.m, fmt_addr(r.local), fmt_addr(r.remote), r.slot, r.at, r.via.name()));
+        }
+        for x in &self.expect {
+            l.push(match x.owner {
+                Some(o) => format!("cfg expect {} ok {} {}", x.rid, o, x.t),
+                None => format!("cfg expect {} err {}", x.rid, x.t),
+            });
         }
         l.push(format!(
             "cfg plan {}",
@@ -130,7 +187,7 @@ impl Case {
     }
 
     fn from_lines<'a>(lines: impl IntoIterator<Item = &'a str>) -> Option<Case> {
-        let mut c = Case { mtu: None, lat_us: 0, dur_us: 0, slots: vec![], claims: vec![], resolves: vec![], plan: vec![] };
+        let mut c = Case { mtu: None, lat_us: 0, dur_us: 0, slots: vec![], claims: vec![], resolves: vec![], plan: vec![], expect: vec![] };
         for line in lines {
             let w: Vec<&str> = line.split_whitespace().collect();
             match w.as_slice() {
@@ -152,14 +209,21 @@ impl Case {
                         Some((b.parse().ok()?, parse_addr(g)?))
                     },
                 }),
-                ["cfg", "resolve", rid, m, local, remote, slot, at] => c.resolves.push(Res {
+                ["cfg", "resolve", rid, m, local, remote, slot, at, rest @ ..] => c.resolves.push(Res {
                     rid: rid.parse().ok()?,
                     m: m.parse().ok()?,
                     local: parse_addr(local)?,
                     remote: parse_addr(remote)?,
                     slot: slot.parse().ok()?,
                     at: at.parse().ok()?,
+                    via: match rest {
+                        [] => Via::Arp,
+                        [v] => Via::parse(v)?,
+                        _ => return None,
+                    },
                 }),
+                ["cfg", "expect", rid, "ok", o, t] => c.expect.push(Expect { rid: rid.parse().ok()?, owner: Some(o.parse().ok()?), t: t.parse().ok()? }),
+                ["cfg", "expect", rid, "err", t] => c.expect.push(Expect { rid: rid.parse().ok()?, owner: None, t: t.parse().ok()? }),
                 ["cfg", "plan", p] => {
                     if *p != "-" {
                         c.plan = p.split(',').map(Plan::parse).collect::<Option<Vec<_>>>()?;
@@ -227,24 +291,94 @@ fn resolve_action(r: &Res) -> Action {
                 let arp = ctx.machine.protocol::<Arp>().expect("machine has Arp");
                 let log = ctx.log.clone();
                 let machine = ctx.machine.clone();
+                let me = ctx.id;
                 // spawned: resolutions of one machine overlap
                 tokio::spawn(async move {
-                    note(&log, format!("c06 start {}", r.rid));
+                    let (rid, slot) = (r.rid, r.slot);
+                    note(&log, format!("c06 start {}", rid));
                     let pair = AddressPair { local: Ipv4Address::from(r.local), remote: Ipv4Address::from(r.remote) };
-                    let mut fut = Box::pin(arp.resolve(pair, r.slot, machine));
+                    // the call under test; answers `ok <mac>` / `sess` (a session: the MAC shows on
+                    // the wire) / `err` / `operr <class>` (an open error that is no ARP failure)
+                    let m2 = machine.clone();
+                    let mut fut: Pin<Box<dyn Future<Output = String> + Send>> = match r.via {
+                        Via::Arp => Box::pin(async move { res_str(&arp.resolve(pair, slot, m2).await.map_err(|_| ())) }),
+                        Via::Ip => Box::pin(async move {
+                            let ipv4 = m2.protocol::<Ipv4>().expect("machine has Ipv4");
+                            match ipv4.open_for_sending(TypeId::of::<Udp>(), pair, m2.clone()).await {
+                                Ok(s) => {
+                                    let _ = s.send(Message::new(sess_tag(rid)), m2);
+                                    "sess".to_string()
+                                }
+                                Err(e) => open_err(fmt_err(&Err::<(), _>(e))),
+                            }
+                        }),
+                        Via::Udp => Box::pin(async move {
+                            let udp = m2.protocol::<Udp>().expect("machine has Udp");
+                            let port = 1000 + rid as u16;
+                            let eps = Endpoints::new(Endpoint::new(pair.local, port), Endpoint::new(pair.remote, port));
+                            match udp.open_and_listen(me, eps, m2.clone()).await {
+                                Ok(s) => {
+                                    let _ = s.send(Message::new(sess_tag(rid)), m2);
+                                    "sess".to_string()
+                                }
+                                Err(e) => open_err(fmt_err(&Err::<(), _>(e))),
+                            }
+                        }),
+                    };
                     // one poll tells a call that returns at once from one that waits
                     let first = std::future::poll_fn(|cx| Poll::Ready(fut.as_mut().poll(cx))).await;
                     match first {
-                        Poll::Ready(x) => note(&log, format!("c06 imm {} {}", r.rid, res_str(&x.map_err(|_| ())))),
+                        Poll::Ready(x) => note(&log, format!("c06 imm {} {}", rid, x)),
                         Poll::Pending => {
-                            note(&log, format!("c06 pend {}", r.rid));
+                            note(&log, format!("c06 pend {}", rid));
                             let x = fut.await;
-                            note(&log, format!("c06 done {} {}", r.rid, res_str(&x.map_err(|_| ()))));
+                            note(&log, format!("c06 done {} {}", rid, x));
                         }
                     }
                 });
             })
         }),
+    }
+}
+
+/// payload of the datagram sent through a freshly opened session: its frame's destination MAC
+/// is the MAC the open call resolved
+fn sess_tag(rid: usize) -> Vec<u8> {
+    let mut v = b"C06RES".to_vec();
+    v.extend_from_slice(&(rid as u32).to_be_bytes());
+    v
+}
+
+fn open_err(class: String) -> String {
+    if class.contains("ArpFailure") {
+        "err".into()
+    } else {
+        format!("operr {}", class)
+    }
+}
+
+/// resolution id -> destination MAC of the tagged datagram of its session (`None` inside =
+/// the frame was broadcast)
+fn sess_macs(events: &[Event]) -> BTreeMap<usize, Option<u64>> {
+    let mut m = BTreeMap::new();
+    for e in events {
+        if let Ev::Wire { to: None, dst, target: Target::Ipv4, bytes, .. } = &e.ev {
+            if bytes.len() >= 10 && &bytes[bytes.len() - 10..bytes.len() - 4] == b"C06RES" {
+                let rid = u32::from_be_bytes([bytes[bytes.len() - 4], bytes[bytes.len() - 3], bytes[bytes.len() - 2], bytes[bytes.len() - 1]]) as usize;
+                m.entry(rid).or_insert(*dst);
+            }
+        }
+    }
+    m
+}
+
+/// answer of a resolution as logged (`ok <mac>` | `sess` | `err` | `operr <class>`); a session
+/// whose datagram never showed up, or was broadcast, counts as the impossible MAC 2^48
+fn parse_answer(w: &[&str], rid: usize, sess: &BTreeMap<usize, Option<u64>>) -> Result<u64, ()> {
+    match w {
+        ["ok", m] => m.parse().map_err(|_| ()),
+        ["sess"] => Ok(sess.get(&rid).copied().flatten().unwrap_or(1 << 48)),
+        _ => Err(()),
     }
 }
 
@@ -263,7 +397,36 @@ fn trace_action(m: usize) -> Action {
     }
 }
 
+/// Real-time runs only: how late the runtime's timers fire under the machine's current load.  A
+/// task sleeps `RESEND_DELAY` over and over and records (log time of the wake-up, lateness); the
+/// budget clauses of the multi_thread oracle add the lateness measured during a resolution to
+/// their slack, so that an overloaded machine is not mistaken for an over-long retry loop.
+/// (Process-wide: a worker process runs one scenario at a time.  Kept out of the event log, which
+/// must fall quiet for the run to end.)
+static PROBE: Mutex<Vec<(u64, u64)>> = Mutex::new(Vec::new());
+
+fn probe_action() -> Action {
+    Action {
+        at: Some(0),
+        kind: custom(move |ctx: Ctx| {
+            Box::pin(async move {
+                let log = ctx.log.clone();
+                tokio::spawn(async move {
+                    loop {
+                        let t0 = tokio::time::Instant::now();
+                        tokio::time::sleep(Arp::RESEND_DELAY).await;
+                        let late = t0.elapsed().saturating_sub(Arp::RESEND_DELAY).as_micros() as u64;
+                        PROBE.lock().unwrap().push((log.now_us(), late));
+                    }
+                });
+            })
+        }),
+    }
+}
+
 struct Observed {
+    /// (wake-up time, lateness) samples of the timer probe (real-time runs)
+    probe: Vec<(u64, u64)>,
     events: Vec<Event>,
     macs: Vec<Vec<u64>>,
     /// per machine: (local ips with subnet info, table)
@@ -277,9 +440,20 @@ fn execute(case: &Case, mode: RtMode) -> Observed {
         .enumerate()
         .map(|(m, k)| {
             let mut script = vec![trace_action(m)];
+            if m == 0 && mode != RtMode::Paused {
+                script.push(probe_action());
+            }
             script.extend(case.claims.iter().filter(|c| c.m == m).map(claim_action));
             script.extend(case.resolves.iter().filter(|r| r.m == m).map(resolve_action));
-            MachineSpec { nets: vec![0; *k], arp: true, apps: vec![AppSpec { n: 0, script, ..Default::default() }], ..Default::default() }
+            // resolutions through IPv4: the route of the local address names the slot and no MAC
+            let mut routes: Vec<Route> = vec![];
+            for r in case.resolves.iter().filter(|r| r.m == m && r.via != Via::Arp) {
+                if !routes.iter().any(|x| x.addr == r.local) {
+                    routes.push(Route { addr: r.local, mask_len: 32, slot: r.slot, mac: None });
+                }
+            }
+            let udp = case.resolves.iter().any(|r| r.m == m && r.via == Via::Udp);
+            MachineSpec { nets: vec![0; *k], arp: true, udp, routes, apps: vec![AppSpec { n: 0, script, ..Default::default() }], ..Default::default() }
         })
         .collect();
     let sc = Scenario {
@@ -304,6 +478,7 @@ fn execute(case: &Case, mode: RtMode) -> Observed {
             Plan::Dup(d) => VerifFramePlan::Duplicate(Duration::from_micros(d)),
         }
     });
+    PROBE.lock().unwrap().clear();
     // real-time runs end once the log has been quiet for longer than a retry round
     let quiesce = mode != RtMode::Paused;
     let built = build(&sc, Some(planner), &|idx, m, log| {
@@ -336,7 +511,8 @@ fn execute(case: &Case, mode: RtMode) -> Observed {
             )
         })
         .collect();
-    Observed { events: built.log.snapshot(), macs: built.macs, snaps }
+    let probe = PROBE.lock().unwrap().clone();
+    Observed { probe, events: built.log.snapshot(), macs: built.macs, snaps }
 }
 
 // ------------------------------------------------------------------------------------------
@@ -390,10 +566,19 @@ struct RState {
     claimed_at_start: bool,
 }
 
-fn parse_res(w: &[&str]) -> Result<u64, ()> {
+/// bookkeeping and sanity of one logged answer (`via` statistics; an open call that failed for
+/// another reason than ARP, or a session whose datagram is not on the wire with a unicast MAC,
+/// is a harness-level failure)
+fn note_answer(rep: &mut CaseReport, fails: &mut Vec<(String, String)>, rid: usize, via: Via, w: &[&str], sess: &BTreeMap<usize, Option<u64>>) {
+    rep.count(format!("via.{}.{}", via.name(), w.first().copied().unwrap_or("?")));
     match w {
-        ["ok", m] => m.parse().map_err(|_| ()),
-        _ => Err(()),
+        ["operr", class] => fails.push((format!("resolution {} through {}: the open call failed with {} (not an ARP failure)", rid, via.name(), class), format!("harness open-error {}", class))),
+        ["sess"] => match sess.get(&rid) {
+            Some(Some(_)) => {}
+            Some(None) => fails.push((format!("resolution {} through {}: the session opened after ARP resolution broadcasts its datagrams (no destination MAC)", rid, via.name()), "session-without-mac".into())),
+            None => fails.push((format!("resolution {} through {}: the datagram sent through the opened session never reached the network", rid, via.name()), "harness session-datagram-missing".into())),
+        },
+        _ => {}
     }
 }
 
@@ -413,6 +598,7 @@ fn run_case(case: &Case) -> CaseReport {
         format!("macs {}", macs.iter().map(|ms| ms.iter().map(|m| m.to_string()).collect::<Vec<_>>().join(",")).collect::<Vec<_>>().join(";")),
     );
     let cfg_of: BTreeMap<usize, &Res> = case.resolves.iter().map(|r| (r.rid, r)).collect();
+    let sess = sess_macs(&obs.events);
     // natively tracked: local_ips per machine (ip -> subnet), resolver states
     let mut ips: Vec<BTreeMap<u32, Option<(u32, u32)>>> = vec![BTreeMap::new(); case.slots.len()];
     let mut rs: BTreeMap<usize, RState> = BTreeMap::new();
@@ -475,7 +661,8 @@ fn run_case(case: &Case) -> CaseReport {
                                         consumed = j;
                                     }
                                     ["c06", "imm", r2, rest @ ..] if r2.parse::<usize>().ok() == Some(rid) => {
-                                        let res = parse_res(rest);
+                                        let res = parse_answer(rest, rid, &sess);
+                                        note_answer(&mut rep, &mut fails, rid, r.via, rest, &sess);
                                         answer = format!("done {}", res_str(&res));
                                         st.done = Some((res, ev[j].t_us, ev[j].id));
                                         consumed = j;
@@ -525,7 +712,8 @@ fn run_case(case: &Case) -> CaseReport {
                     }
                     ["c06", "done", rid, rest @ ..] => {
                         let rid: usize = rid.parse().unwrap();
-                        let res = parse_res(rest);
+                        let res = parse_answer(rest, rid, &sess);
+                        note_answer(&mut rep, &mut fails, rid, cfg_of[&rid].via, rest, &sess);
                         rep.line(format!("at {} done {}", t, rid), format!("done {}", res_str(&res)));
                         if let Some(st) = rs.get_mut(&rid) {
                             st.done = Some((res, t, e.id));
@@ -660,6 +848,20 @@ fn run_case(case: &Case) -> CaseReport {
                         ));
                     }
                 }
+                // failure only after the full bounded retry period: `RESEND_TRIES` requests,
+                // the last of them waited for: never before start + TRIES * DELAY
+                // (a frame that does not fit the MTU fails the call at once: excluded)
+                if mtu_ok && *t < window_end {
+                    fails.push((
+                        format!(
+                            "{} (through {}) started at {} us gave up at {} us after {} of {} requests; the retry budget ends at {} us",
+                            desc, cfg_of[rid].via.name(), st.start_t, t, st.rounds.len(), tries(), window_end
+                        ),
+                        "err-before-budget-end".into(),
+                    ));
+                } else if mtu_ok && (st.rounds.len() as u64) < tries() {
+                    fails.push((format!("{} (through {}) failed after only {} of {} requests", desc, cfg_of[rid].via.name(), st.rounds.len(), tries()), "err-before-budget-end".into()));
+                }
                 if who.is_empty() && mtu_ok && st.rounds.len() as u64 == tries() && *t != window_end {
                     fails.push((format!("{} used all {} rounds but failed at {} us instead of exactly {} us", desc, tries(), t, window_end), "failure-time".into()));
                 }
@@ -675,6 +877,43 @@ fn run_case(case: &Case) -> CaseReport {
             fails.push((format!("{} sent {} requests, the budget is {}", desc, st.rounds.len(), tries()), "too-many-rounds".into()));
         }
         rep.count(format!("rounds.{}", st.rounds.len()));
+    }
+    // what the configuration prescribes (`kth` family: which exchange of the budget gets through)
+    for x in &case.expect {
+        let via = cfg_of.get(&x.rid).map(|r| r.via.name()).unwrap_or("?");
+        let got = rs.get(&x.rid).and_then(|st| st.done.clone());
+        let want = match x.owner {
+            Some(o) => format!("Ok(a MAC of machine {}) at {} us", o, x.t),
+            None => format!("Err at {} us", x.t),
+        };
+        rep.count(format!("expect.{}", if x.owner.is_some() { "ok" } else { "err" }));
+        match (&got, x.owner) {
+            (Some((Ok(mac), t, _)), Some(o)) => {
+                if !macs.get(o).map(|ms| ms.contains(mac)).unwrap_or(false) {
+                    fails.push((format!("resolution {} through {}: the loss plan lets exactly one exchange of the retry budget through, expected {}, got MAC {}", x.rid, via, want, mac), "kth-exchange-outcome".into()));
+                } else if *t != x.t {
+                    fails.push((format!("resolution {} through {}: expected {}, completed at {} us", x.rid, via, want, t), "kth-exchange-time".into()));
+                }
+            }
+            (Some((Err(()), t, _)), None) => {
+                if *t != x.t {
+                    fails.push((format!("resolution {} through {}: no exchange gets through, expected {}, failed at {} us", x.rid, via, want, t), "kth-exchange-time".into()));
+                }
+            }
+            (Some((r, t, _)), _) => fails.push((
+                format!(
+                    "resolution {} through {}: the loss plan {}, expected {}, got {} at {} us",
+                    x.rid,
+                    via,
+                    if x.owner.is_some() { "lets one request/reply exchange of the retry budget through" } else { "lets no exchange through" },
+                    want,
+                    res_str(r),
+                    t
+                ),
+                "kth-exchange-outcome".into(),
+            )),
+            (None, _) => fails.push((format!("resolution {} through {}: expected {}, the call never returned", x.rid, via, want), "kth-exchange-outcome".into())),
+        }
     }
     // agreement: resolutions of one machine for one address that wait at the same time return
     // the same answer
@@ -719,7 +958,7 @@ fn run_case(case: &Case) -> CaseReport {
     // concurrent pair or a gateway substitution
     let waited_ok = rs.values().any(|st| !st.rounds.is_empty() && matches!(st.done, Some((Ok(_), _, _))));
     let spice = !dropped_sends.is_empty() || rep.counts.iter().any(|(k, _)| k == "concurrent-pairs" || k == "result.ok-gateway") || rs.values().any(|st| matches!(st.done, Some((Err(()), _, _))));
-    rep.nontrivial = waited_ok && spice;
+    rep.nontrivial = (waited_ok && spice) || !case.expect.is_empty();
     rep.count(format!("machines.{}", case.slots.len()));
     rep.count(format!("resolutions.{}", case.resolves.len().min(9)));
     for (what, ident) in fails {
@@ -758,7 +997,11 @@ fn run_case_mt(case: &Case, workers: usize) -> CaseReport {
     let mut fails: Vec<(String, String)> = vec![];
     let mut dropped: Vec<u64> = vec![];
     let mut learned: Vec<(u64, usize, u32, u64)> = vec![];
+    let sess = sess_macs(&obs.events);
     let slack = 400_000u64; // scheduling slack on a loaded machine, in real microseconds
+    // ... plus twice the timer lateness the probe measured while the resolution was running
+    let lag = |from: u64, to: u64| -> u64 { 2 * obs.probe.iter().filter(|(t, _)| *t >= from && *t <= to + delay_us()).map(|(_, l)| *l).sum::<u64>() };
+    rep.count_n("probe.late_ms", obs.probe.iter().map(|(_, l)| *l).sum::<u64>() / 1000);
     for e in &obs.events {
         let t = e.t_us;
         match &e.ev {
@@ -783,8 +1026,10 @@ fn run_case_mt(case: &Case, workers: usize) -> CaseReport {
                         rs.insert(rid, R { m: r.m, dest, start_t: t, claimed_at_start: claimed, done: None });
                     }
                     ["c06", "imm", rid, rest @ ..] | ["c06", "done", rid, rest @ ..] => {
-                        if let Some(st) = rs.get_mut(&rid.parse::<usize>().unwrap()) {
-                            st.done = Some((parse_res(rest), t));
+                        let rid: usize = rid.parse().unwrap();
+                        note_answer(&mut rep, &mut fails, rid, cfg_of[&rid].via, rest, &sess);
+                        if let Some(st) = rs.get_mut(&rid) {
+                            st.done = Some((parse_answer(rest, rid, &sess), t));
                         }
                     }
                     _ => {}
@@ -823,7 +1068,7 @@ fn run_case_mt(case: &Case, workers: usize) -> CaseReport {
         match &st.done {
             None => {
                 summary.push(format!("r{}=pending", rid));
-                if end_t > st.start_t + budget_us() + 2 * slack {
+                if end_t > st.start_t + budget_us() + 2 * slack + lag(st.start_t, end_t) {
                     fails.push((format!("{} started at {} us has not returned at {} us (budget {} us)", desc, st.start_t, end_t, budget_us()), "hang".into()));
                 }
             }
@@ -836,15 +1081,15 @@ fn run_case_mt(case: &Case, workers: usize) -> CaseReport {
                         if who.is_empty() { "ok-for-unclaimed".into() } else { "wrong-mac".into() },
                     ));
                 }
-                if *t > st.start_t + budget_us() + slack {
+                if *t > st.start_t + budget_us() + slack + lag(st.start_t, *t) {
                     fails.push((format!("{} returned after {} us, beyond the retry budget", desc, t - st.start_t), "late-answer".into()));
                 }
             }
             Some((Err(()), t)) => {
                 summary.push(format!("r{}=err", rid));
                 rep.count("result.err");
-                if *t > st.start_t + budget_us() + slack {
-                    fails.push((format!("{} failed after {} us, beyond the retry budget of {} us", desc, t - st.start_t, budget_us()), "late-failure".into()));
+                if *t > st.start_t + budget_us() + slack + lag(st.start_t, *t) {
+                    fails.push((format!("{} failed after {} us, beyond the retry budget of {} us (timer lateness measured meanwhile: {} us)", desc, t - st.start_t, budget_us(), lag(st.start_t, *t) / 2), "late-failure".into()));
                 }
                 if who.len() == 1 {
                     // the owner's mapping reached the machine clearly before the call gave up
@@ -906,6 +1151,11 @@ fn gen_mt(rng: &mut Rng) -> Case {
 const MS: u64 = 1000;
 
 fn gen(rng: &mut Rng) -> Case {
+    gen_with(rng, false)
+}
+
+/// `through_ip`: every resolution of the case goes through the IPv4 layer (run `c06-ip`)
+fn gen_with(rng: &mut Rng, through_ip: bool) -> Case {
     let n = match rng.below(10) {
         0..=3 => 2 + rng.below(2) as usize,
         4..=7 => 4 + rng.below(4) as usize,
@@ -994,14 +1244,14 @@ fn gen(rng: &mut Rng) -> Case {
             *rng.pick(&[0u64, 0, MS, 10 * MS, 150 * MS, 400 * MS, 1000 * MS, 1900 * MS, 2100 * MS, 3000 * MS])
         };
         let slot = rng.below(slots[m] as u64) as u32;
-        resolves.push(Res { rid, m, local, remote, slot, at });
+        resolves.push(Res { rid, m, local, remote, slot, at, via: Via::Arp });
         rid += 1;
         // concurrent resolvers of the same address (same machine or another one)
         if rng.chance(1, 3) && resolves.len() < k {
             let m2 = if rng.chance(1, 2) { m } else { rng.below(n as u64) as usize };
             let l2 = *rng.pick(&own[m2]);
             let at2 = if rng.chance(1, 2) { at } else { at + *rng.pick(&[MS, 100 * MS, 500 * MS, 1900 * MS]) };
-            resolves.push(Res { rid, m: m2, local: l2, remote, slot: rng.below(slots[m2] as u64) as u32, at: at2 });
+            resolves.push(Res { rid, m: m2, local: l2, remote, slot: rng.below(slots[m2] as u64) as u32, at: at2, via: Via::Arp });
             rid += 1;
         }
     }
@@ -1022,20 +1272,143 @@ fn gen(rng: &mut Rng) -> Case {
         })
         .collect();
     let last = resolves.iter().map(|r| r.at).max().unwrap_or(0);
-    Case {
-        mtu: match rng.below(25) {
-            0 => Some(28),
-            1 => Some(27),
-            2 => Some(1500),
-            _ => None,
-        },
-        lat_us: *rng.pick(&[0u64, 0, MS, 30 * MS]),
-        dur_us: last + budget_us() + 700 * MS,
-        slots,
-        claims,
-        resolves,
-        plan,
+    let mtu = match rng.below(25) {
+        0 | 1 if through_ip => Some(576),
+        0 => Some(28),
+        1 => Some(27),
+        2 => Some(1500),
+        _ => None,
+    };
+    // how each resolution is triggered: directly, or through the IPv4 layer (whole case or mixed);
+    // with a tiny MTU the datagram that shows the session's MAC would not fit: direct calls only
+    let style = if through_ip { 1 + rng.below(3) } else { rng.below(4) };
+    if mtu.map(|m| m >= 100).unwrap_or(true) && style > 0 {
+        let mut slot_of: BTreeMap<(usize, u32), u32> = BTreeMap::new();
+        for r in resolves.iter_mut() {
+            r.via = match style {
+                1 => Via::Ip,
+                2 => Via::Udp,
+                _ if through_ip => *rng.pick(&[Via::Ip, Via::Udp]),
+                _ => *rng.pick(&[Via::Arp, Via::Ip, Via::Udp]),
+            };
+            // a session to a loopback address (127/8) hands its datagrams to the own tap and
+            // never shows a MAC on the wire (the resolution itself is done all the same)
+            if r.remote >> 24 == 127 {
+                r.via = Via::Arp;
+            }
+            if r.via != Via::Arp {
+                // one route per local address: later resolutions from it use the same slot
+                r.slot = *slot_of.entry((r.m, r.local)).or_insert(r.slot);
+            }
+        }
     }
+    Case { mtu, lat_us: *rng.pick(&[0u64, 0, MS, 30 * MS]), dur_us: last + budget_us() + 700 * MS, slots, claims, resolves, plan, expect: vec![] }
+}
+
+/// The `kth` family: one resolver, one owner, bystanders; in the send order of the ARP frames
+/// every round before the k-th loses its request (1 frame) or its reply (2 frames), the k-th
+/// exchange gets through, `k = tries + 1` = none does.  `shape`: 0 = requests lost, 1 = replies
+/// lost, 2 = alternating, 3 = drawn per round from `bits`.  The expectation is computed here, from
+/// the property: Ok(owner) at `at + (k-1) * RESEND_DELAY + 2 * latency`, or Err at
+/// `at + RESEND_TRIES * RESEND_DELAY`.
+fn kth_case(via: Via, k: u64, shape: u64, bits: u64, lat_us: u64, at: u64, n: usize, subnet: bool, second: Option<(Via, u64)>) -> Case {
+    let ip = |s: &str| parse_addr(s).unwrap();
+    let (a, b) = (ip("10.0.0.1"), ip("10.0.0.2"));
+    let mut claims = vec![
+        Claim { m: 0, ip: a, at: None, sub: if subnet { Some((24, ip("10.0.0.254"))) } else { None } },
+        Claim { m: 1, ip: b, at: None, sub: None },
+    ];
+    for m in 2..n {
+        claims.push(Claim { m, ip: ip("10.0.0.10") + m as u32, at: None, sub: None });
+    }
+    let mut plan: Vec<Plan> = vec![];
+    let rounds = |k: u64, plan: &mut Vec<Plan>, salt: u64| {
+        for j in 1..=tries() {
+            if j == k {
+                plan.push(Plan::Deliver);
+                plan.push(Plan::Deliver);
+                break;
+            }
+            let lose_reply = match shape {
+                0 => false,
+                1 => true,
+                2 => j % 2 == 0,
+                _ => (bits >> ((j + salt) % 60)) & 1 == 1,
+            };
+            if lose_reply {
+                plan.push(Plan::Deliver);
+            }
+            plan.push(Plan::Drop);
+        }
+    };
+    rounds(k, &mut plan, 0);
+    let expect_of = |rid: usize, owner: usize, k: u64, at: u64| {
+        if k <= tries() {
+            Expect { rid, owner: Some(owner), t: at + (k - 1) * delay_us() + 2 * lat_us }
+        } else {
+            Expect { rid, owner: None, t: at + budget_us() }
+        }
+    };
+    let mut resolves = vec![Res { rid: 0, m: 0, local: a, remote: b, slot: 0, at, via }];
+    let mut expect = vec![expect_of(0, 1, k, at)];
+    if let Some((via2, k2)) = second {
+        // a later resolver on another machine (the owner's table knows nothing of it yet), started
+        // after the first budget is over; its rounds continue the plan
+        let m2 = if n > 2 { 2 } else { 1 };
+        let (l2, r2, o2) = if n > 2 { (ip("10.0.0.10") + 2, b, 1) } else { (b, ip("10.0.0.77"), 0) };
+        if n == 2 {
+            claims.push(Claim { m: 0, ip: ip("10.0.0.77"), at: None, sub: None });
+        }
+        let at2 = at + budget_us() + 100 * MS;
+        // has machine m2 learned the target's MAC already?  (only from a request the target sent:
+        // it sent none, so no)
+        rounds(k2, &mut plan, 7);
+        resolves.push(Res { rid: 1, m: m2, local: l2, remote: r2, slot: 0, at: at2, via: via2 });
+        expect.push(expect_of(1, o2, k2, at2));
+    }
+    plan.extend((0..4).map(|_| Plan::Drop));
+    let last = resolves.iter().map(|r| r.at).max().unwrap_or(0);
+    Case { mtu: None, lat_us, dur_us: last + budget_us() + 700 * MS, slots: vec![1; n], claims, resolves, plan, expect }
+}
+
+fn gen_kth(rng: &mut Rng) -> Case {
+    let via = *rng.pick(&[Via::Ip, Via::Ip, Via::Udp, Via::Udp, Via::Arp]);
+    // the ends of the budget are the interesting positions
+    let k = match rng.below(4) {
+        0 => tries(),
+        1 => tries() + 1,
+        2 => *rng.pick(&[1, 2, tries().saturating_sub(1).max(1)]),
+        _ => 1 + rng.below(tries()),
+    };
+    let second = if rng.chance(1, 3) { Some((*rng.pick(&[Via::Ip, Via::Udp, Via::Arp]), 1 + rng.below(tries() + 1))) } else { None };
+    kth_case(
+        via,
+        k,
+        rng.below(4),
+        rng.next(),
+        *rng.pick(&[0u64, 0, MS, 30 * MS, 99 * MS]),
+        *rng.pick(&[0u64, 0, MS, 150 * MS, 1234 * MS]),
+        2 + rng.below(3) as usize,
+        rng.chance(1, 3),
+        second,
+    )
+}
+
+/// every position of the retry budget, for both ways through the IPv4 layer (and the direct call
+/// as control): k = 1..=RESEND_TRIES and none, requests lost / replies lost
+fn kth_systematic() -> Vec<Case> {
+    let mut v = vec![];
+    for via in [Via::Ip, Via::Udp, Via::Arp] {
+        for k in 1..=tries() + 1 {
+            for shape in [0u64, 1] {
+                if via == Via::Arp && shape == 1 {
+                    continue;
+                }
+                v.push(kth_case(via, k, shape, 0, if shape == 0 { 0 } else { MS }, 0, 2 + (k % 2) as usize, false, None));
+            }
+        }
+    }
+    v
 }
 
 /// hand-made scenarios (each probes one clause)
@@ -1044,10 +1417,16 @@ fn fixed_cases() -> Vec<Case> {
     let (a, b, c) = (ip("10.0.0.1"), ip("10.0.0.2"), ip("10.0.1.3"));
     let base = |claims: Vec<Claim>, resolves: Vec<Res>, plan: Vec<Plan>, slots: Vec<usize>| {
         let last = resolves.iter().map(|r| r.at).max().unwrap_or(0);
-        Case { mtu: None, lat_us: 0, dur_us: last + budget_us() + 700 * MS, slots, claims, resolves, plan }
+        Case { mtu: None, lat_us: 0, dur_us: last + budget_us() + 700 * MS, slots, claims, resolves, plan, expect: vec![] }
     };
     let cl = |m, ip, at, sub| Claim { m, ip, at, sub };
-    let rs = |rid, m, local, remote, at| Res { rid, m, local, remote, slot: 0, at };
+    let rs = |rid, m, local, remote, at| Res { rid, m, local, remote, slot: 0, at, via: Via::Arp };
+    let via = |mut c: Case, v: Via| {
+        for r in c.resolves.iter_mut() {
+            r.via = v;
+        }
+        c
+    };
     vec![
         // plain exchange, then a table hit
         base(vec![cl(0, a, None, None), cl(1, b, None, None)], vec![rs(0, 0, a, b, 0), rs(1, 0, a, b, 5 * MS)], vec![], vec![1, 1]),
@@ -1080,12 +1459,42 @@ fn fixed_cases() -> Vec<Case> {
         ),
         // an owner with two taps answers twice
         base(vec![cl(0, a, None, None), cl(1, b, None, None)], vec![rs(0, 0, a, b, 0), rs(1, 0, a, b, 0)], vec![], vec![1, 2]),
+        // ---- the same clauses with the resolutions triggered through the IPv4 layer ----
+        // plain exchange, then a table hit (open returns at once)
+        via(base(vec![cl(0, a, None, None), cl(1, b, None, None)], vec![rs(0, 0, a, b, 0), rs(1, 0, a, b, 5 * MS)], vec![], vec![1, 1]), Via::Ip),
+        via(base(vec![cl(0, a, None, None), cl(1, b, None, None)], vec![rs(0, 0, a, b, 0), rs(1, 0, a, b, 5 * MS)], vec![], vec![1, 1]), Via::Udp),
+        // nobody claims the address: the open call fails after exactly the budget, and again
+        via(base(vec![cl(0, a, None, None), cl(1, b, None, None)], vec![rs(0, 0, a, c, 0), rs(1, 0, a, c, 2500 * MS)], vec![], vec![1, 1]), Via::Udp),
+        // gateway substitution through the session: datagrams for an off-subnet address go to the gateway's MAC
+        via(
+            base(
+                vec![cl(0, a, None, Some((24, b))), cl(1, b, None, None), cl(2, c, None, None), cl(2, ip("10.0.0.77"), None, None)],
+                vec![rs(0, 0, a, c, 0), rs(1, 0, a, ip("10.0.0.77"), 10 * MS)],
+                vec![],
+                vec![1, 1, 1],
+            ),
+            Via::Ip,
+        ),
+        // the answer arrives exactly when the last time-out expires
+        via(
+            base(vec![cl(0, a, None, None), cl(1, b, None, None)], vec![rs(0, 0, a, b, 0)], (0..9).map(|_| Plan::Drop).chain([Plan::Delay(200 * MS)]).collect(), vec![1, 1]),
+            Via::Ip,
+        ),
+        // two concurrent opens for one address, one direct resolver alongside
+        {
+            let mut c = base(vec![cl(0, a, None, None), cl(1, b, None, None)], vec![rs(0, 0, a, b, 0), rs(1, 0, a, b, 0), rs(2, 0, a, b, 300 * MS)], (0..3).map(|_| Plan::Drop).collect(), vec![1, 1]);
+            c.resolves[0].via = Via::Ip;
+            c.resolves[1].via = Via::Udp;
+            c
+        },
     ]
 }
 
-const RULE: &str = "LANs of 2..12 machines (1-2 taps), 1-3 claimed addresses each (some appearing later, 40% with SubnetInfo: masks 0..33, gateway = some machine / nobody / itself), 1..8 resolutions (own, others', unclaimed and off-subnet targets; bursts of concurrent resolvers of one address on one or several machines), fault plan over the ARP frames in send order (loss 0..100%, leading drops, delays 1..450 ms, duplicates), latency 0/1/30 ms, MTU none/1500/28/27; paused-clock runtime; non-trivial = a resolution that had to wait got an answer and the case has a lost frame, a failed resolution, a concurrent pair or a gateway substitution; distinct = hash of the configuration lines";
+const RULE: &str = "LANs of 2..12 machines (1-2 taps), 1-3 claimed addresses each (some appearing later, 40% with SubnetInfo: masks 0..33, gateway = some machine / nobody / itself), 1..8 resolutions (own, others', unclaimed and off-subnet targets; bursts of concurrent resolvers of one address on one or several machines), fault plan over the ARP frames in send order (loss 0..100%, leading drops, delays 1..450 ms, duplicates), latency 0/1/30 ms, MTU none/1500/28/27; in 3 of 4 cases the resolutions are triggered through the IPv4 layer (Ipv4::open_for_sending / Udp::open_and_listen on a machine whose route has no MAC; all of them, or mixed with direct Arp::resolve calls), the resolved MAC read from the destination of a datagram sent through the opened session; paused-clock runtime; non-trivial = a resolution that had to wait got an answer and the case has a lost frame, a failed resolution, a concurrent pair or a gateway substitution; distinct = hash of the configuration lines";
 
-const RULE_MT: &str = "the generator of the main run restricted to claims made before the barrier, <= 5 calls within the first 300 ms, loss 0/20/50 %, on tokio multi_thread runtimes with 2/4/16 workers in real time (run ends when the log is quiet); oracle only (owner's MAC, never an unclaimed address, only owners announce, budget respected with 0.4 s scheduling slack, claimed + loss-free => Ok, agreement); non-trivial = >= 2 calls and an Ok answer";
+const RULE_IP: &str = "resolutions triggered THROUGH the IPv4 layer (Ipv4::open_for_sending or Udp::open_and_listen on a machine with ARP and a MAC-less /32 route for the local address; direct Arp::resolve as control): (1) systematically, for each way, every position of the retry budget: only the k-th request/reply exchange gets through for k = 1..=RESEND_TRIES, and none, the earlier rounds losing the request or the reply; (2) generated cases of that family (k biased to the ends of the budget, latency 0..99 ms, start time, 2..4 machines, SubnetInfo, per-round choice of which frame is lost, optionally a second resolver on another machine after the first budget); (3) the generated LANs of the main run with every resolution through IPv4; outcome and completion instant of the open call are compared with the model's `resolve` (replay) and with what the configuration prescribes (Ok(owner) at start + (k-1)*RESEND_DELAY + 2*latency, Err at start + RESEND_TRIES*RESEND_DELAY, never earlier); the MAC is the destination of a datagram sent through the opened session; non-trivial = as in the main run, or any case of the k-th-exchange family; distinct = hash of the configuration lines";
+
+const RULE_MT: &str = "the generator of the main run restricted to claims made before the barrier, <= 5 calls within the first 300 ms, loss 0/20/50 %, on tokio multi_thread runtimes with 2/4/16 workers in real time (run ends when the log is quiet); oracle only (owner's MAC, never an unclaimed address, only owners announce, budget respected with 0.4 s scheduling slack plus twice the timer lateness a probe task measured during the resolution, claimed + loss-free => Ok, agreement); non-trivial = >= 2 calls and an Ok answer";
 
 fn case_of_spec(spec: &str) -> Option<Case> {
     if spec.starts_with("replay") {
@@ -1095,6 +1504,9 @@ fn case_of_spec(spec: &str) -> Option<Case> {
     match w.as_slice() {
         ["fixed", k] => fixed_cases().get(k.parse::<usize>().ok()?).cloned(),
         ["gen", seed] => Some(gen(&mut Rng::new(seed.parse().ok()?))),
+        ["kth", k] => kth_systematic().get(k.parse::<usize>().ok()?).cloned(),
+        ["genk", seed] => Some(gen_kth(&mut Rng::new(seed.parse().ok()?))),
+        ["genip", seed] => Some(gen_with(&mut Rng::new(seed.parse().ok()?), true)),
         ["genmt", seed, _workers] => Some(gen_mt(&mut Rng::new(seed.parse().ok()?))),
         _ => None,
     }
@@ -1124,6 +1536,7 @@ pub fn run(args: &Args) {
     }
     let mut out = Out::new(&args.out);
     let mt = args.prop == "c06-mt";
+    let ip = args.prop == "c06-ip";
     let specs: Vec<String> = if let Some(rp) = &args.replay {
         let ops = read_ops(rp);
         let head = match ops.iter().find_map(|l| l.strip_prefix("mt ")) {
@@ -1134,6 +1547,13 @@ pub fn run(args: &Args) {
     } else if mt {
         let mut rng = Rng::new(args.seed);
         (0..args.cases).map(|i| format!("genmt {} {}", rng.next(), [2usize, 4, 16][i as usize % 3])).collect()
+    } else if ip {
+        // resolutions driven through the IPv4 layer: every position of the retry budget first,
+        // then generated `kth` cases and generated LANs whose resolutions all go through IPv4
+        let mut rng = Rng::new(args.seed ^ 0x1b06);
+        let mut v: Vec<String> = (0..kth_systematic().len()).map(|k| format!("kth {}", k)).collect();
+        v.extend((0..args.cases).map(|i| if i % 2 == 0 { format!("genk {}", rng.next()) } else { format!("genip {}", rng.next()) }));
+        v
     } else {
         let mut rng = Rng::new(args.seed);
         let mut v: Vec<String> = (0..fixed_cases().len()).map(|k| format!("fixed {}", k)).collect();
@@ -1159,5 +1579,11 @@ pub fn run(args: &Args) {
         }
         out.end_case();
     }
-    out.finish(if mt { RULE_MT } else { RULE });
+    out.finish(if mt {
+        RULE_MT
+    } else if ip {
+        RULE_IP
+    } else {
+        RULE
+    });
 }
